@@ -93,6 +93,12 @@ func (fr *Frame) execBlock(b *ssa.BasicBlock, st *State, l *Loop) []*Edge {
 				r := vc.alloc()
 				st.store(r, et, zeroValue(et))
 				fr.env[x] = r
+				if facts, ok := vc.prog.specs.OnAlloc[typeKey(et)]; ok {
+					for _, fe := range facts {
+						ev := &SpecEval{vc: vc, fr: fr, names: map[string]SVal{"it": {V: r, T: x.Type()}}, cur: st, old: st}
+						vc.addFact(st, ev.evalBool(fe))
+					}
+				}
 			}
 		case *ssa.BinOp:
 			fr.env[x] = fr.binop(x, st)
